@@ -11,7 +11,11 @@
    "err" (language-level error), "host" (host exception escaped), "kind"
    (value of the wrong kind); arguments s, t, r (text), parts (list of
    text), n (int); observation ri (int), rb (0/1), rs (text), rl (list of
-   text).  Fields an operation does not use are absent. *)
+   text).  Fields an operation does not use are absent.
+
+   An event the MODEL does not define (a template with a group that is not a
+   placeholder, a tie under a rounding format) is a defect of the generator,
+   not of the implementation: it is reported as "MODEL:<op>". *)
 EXTENDS StrOps, TLC, Json, IOUtils
 
 Trace == ndJsonDeserialize(IOEnv.TRACE_FILE)
@@ -62,10 +66,19 @@ Expect ==
     \* chr(ord(c1)) + chr(ord(c2)) + ... rebuilds the string
     [] Ev.op = "chr_ord"     -> Val /\ Ev.rs = Ev.s
     [] Ev.op = "ord_empty"   -> Ev.st # "host"
-    [] Ev.op = "interp"      -> Val /\ Ev.rs = Interp(Ev.segs, Ev.env)
-    \* {v#.d} denotes the rounded number; {v#0w.d} is that text zero-padded
-    [] Ev.op = "round"       -> Val /\ RoundTextOK(Ev.rs, Ev.m, Ev.sc, Ev.d)
-                                    /\ Ev.rs2 = Pad(Ev.rs, Ev.w, Ev.mode)
+    \* f in {trim, upper, lower} applied once (rs) and twice (rs2), on any
+    \* characters: no table is needed to say that the second application
+    \* changes nothing; where the tables define f the value is compared too
+    [] Ev.op = "idem"        -> Val /\ Ev.rs2 = Ev.rs
+                                    /\ (Ev.f = "trim" => TrimLawOK(Ev.s, Ev.rs))
+                                    /\ (AllPlain(Ev.s) => Ev.rs = Apply1(Ev.f, Ev.s))
+    \* the template is text; the model scans it itself.  via = "sprintf":
+    \* the values are the arguments, named 0, 1, 2, ...
+    [] Ev.op = "interp"      -> Val /\ Ev.rs = S(Ev.tpl, Ev.env).txt
+    \* {v#.d} denotes the rounded number; '<lit1>{v#[-|0]w.d}<lit2>' is
+    \* that text padded, between the unchanged literal texts
+    [] Ev.op = "round"       -> Val /\ RoundTextOK(Ev.rs, Ev.neg = 1, Ev.ip, Ev.fp, Ev.d)
+                                    /\ Ev.rs2 = Ev.lit1 \o Pad(Ev.rs, Ev.w, Ev.mode) \o Ev.lit2
     [] Ev.op = "lines"       -> Val /\ Ev.rl = Lines(Ev.s)
     [] Ev.op = "words"       -> Val /\ Ev.rl = Words(Ev.s)
     [] Ev.op = "unlines"     -> Val /\ Ev.rs = Unlines(Ev.parts)
@@ -74,12 +87,21 @@ Expect ==
     [] Ev.op = "esc"         -> Val /\ Ev.rs = Esc(Ev.s)
     [] OTHER                 -> FALSE
 
+\* is the event one the model defines?
+Defined ==
+  CASE Ev.op = "interp" -> /\ S(Ev.tpl, Ev.env).ok
+                           /\ (Ev.via = "sprintf" => ArgNamesOK(Ev.env))
+    [] Ev.op = "round"  -> /\ IsDigitSeq(Ev.ip) /\ IsDigitSeq(Ev.fp) /\ Ev.ip # << >>
+                           /\ ~IsTie(Ev.fp, Ev.d)
+                           /\ ~(Ev.mode = "z" /\ Ev.neg = 1)
+    [] OTHER            -> TRUE
+
 Init == l = 1
 
 Step ==
   /\ l <= Len(Trace)
   /\ l' = l + 1
-  /\ Check(Expect, Ev.op)
+  /\ (IF Defined THEN Check(Expect, Ev.op) ELSE Bad("MODEL:" \o Ev.op))
   /\ (l = Len(Trace) => PrintT("@@DONE@@" \o ToJson([n |-> l])))
 
 Spec == Init /\ [][Step]_vars
